@@ -184,7 +184,7 @@ Section Segments.
       destruct (ins_rev_spec x acc Hacc) as [I1 I2]. destruct (IH _ I1) as [J1 J2].
       split; [exact J1|]. rewrite <- J2. rewrite <- I2. apply Permutation_middle. }
     destruct (H rs [] ltac:(constructor)) as [H1 H2]. rewrite app_nil_r in H2. split.
-    - rewrite H2. apply Permutation_rev.
+    - etransitivity; [exact H2|apply Permutation_rev].
     - apply SS_rev. exact H1.
   Qed.
 
